@@ -270,7 +270,9 @@ class Translator:
             tk = GetTypeKind(t)
             if tk in (TK['Struct'], TK['Array']): return '(%s){0}' % ct
             return '((%s)0)' % ct
-        if k == VK['GlobalVariable']: return '(&%s)' % self.gname(v)
+        if k == VK['GlobalVariable']:
+            if IsDeclaration(v) and vname(v).startswith('_ZTI') and ct == 'u8**': return '((u8**)%s)' % self.gname(v)   # external type_info: {vptr, name} array
+            return '(&%s)' % self.gname(v)
         if k == VK['Function']: return '(&%s)' % self.fname(v)
         if k == VK['ConstantExpr']: return self.constexpr(v)
         if k == VK['ConstantAggregateZero']: return '(%s){0}' % ct
@@ -797,7 +799,11 @@ class Translator:
                 # external object (type_info / vtable of libstdc++ classes, __dso_handle, ...): only its
                 # address matters to the translated code, so a private zero object stands for it
                 self.ext_globals.append(name)
-                gdecl.append('%s %s; /* external object %s */' % (ct, self.gname(g), name))
+                if name.startswith('_ZTI') and ct == 'u8*':
+                    # type_info of a fundamental/libstdc++ type: {vtable pointer, name}; the inline type_info::operator== reads the name
+                    gdecl.append('u8* %s[2] = {0, (u8*)"%s"}; /* external type_info %s: name is the mangled type */' % (self.gname(g), name[4:], name))
+                else:
+                    gdecl.append('%s %s; /* external object %s */' % (ct, self.gname(g), name))
             else:
                 gdecl.append('%s %s;' % (ct, self.gname(g)))
                 gl.append((g, ct))
